@@ -59,7 +59,7 @@ def drvController (st : Option (Controller.Cfg × Controller.State)) (xs : List 
     let c : Controller.Cfg := { nbm, bankbits, rankbits, nphases, rdphase, wrphase, bm, rf,
                                 tRRD := if hasRRD == 1 then some tRRD else none, tFAW := if hasFAW == 1 then some tFAW else none,
                                 tCCD, twtr, readTime, writeTime, readLatency }
-    (some (c, Controller.init c), (if Controller.wf2Check c then "cfg wf2=1" else "cfg wf2=0") ++ " psimax=" ++ toString (CtlLive.psiMax c))
+    (some (c, Controller.init c), (if Controller.wf2Check c then "cfg wf2=1" else "cfg wf2=0") ++ " psimax=" ++ toString (CtlLive.psiMax c) ++ " budget=" ++ (if RefreshRate.budgetCheck c then "1" else "0"))
   | some (c, s), xs =>
     let arr := xs.toArray
     let ins := (Array.range c.nbm).map fun i => ({ valid := n2b (arr.getD (3*i) 0), we := n2b (arr.getD (3*i+1) 0), addr := arr.getD (3*i+2) 0 } : Controller.BankIn)
